@@ -33,22 +33,24 @@ SProgs == { <<O("create", 1, 0), O("call", 1, 0)>>,
 
 SInit == Init /\ sched = <<>> /\ prog0 = prog
 Rec(t, l) == sched' = Append(sched, [t |-> t, l |-> l]) /\ prog0' = prog0
-SStep(t) ==
-    \/ (Start(t) /\ Rec(t, "Start"))
-    \/ (LockE(t) /\ Rec(t, "LockE"))
-    \/ (LockL(t) /\ Rec(t, "LockL"))
-    \/ (Symbol(t) /\ Rec(t, "Symbol"))
-    \/ (UnlockL(t) /\ Rec(t, "UnlockL"))
-    \/ (UnlockE(t) /\ Rec(t, "UnlockE"))
-    \/ (LockT(t) /\ Rec(t, "LockT"))
-    \/ (Hit(t) /\ Rec(t, "Hit"))
-    \/ (Miss(t) /\ Rec(t, "Miss"))
-    \/ (InterrogateVersion(t) /\ Rec(t, "InterrogateVersion"))
-    \/ (InterrogateMethods(t) /\ Rec(t, "InterrogateMethods"))
-    \/ (Insert(t) /\ Rec(t, "Insert"))
-    \/ (UnlockT(t) /\ Rec(t, "UnlockT"))
-    \/ (CallEnd(t) /\ Rec(t, "CallEnd"))
-    \/ (OpDone(t) /\ Rec(t, "OpDone"))
+\* every step of thread t with its label handed to the recorder R
+LStep(t, R(_, _)) ==
+    \/ (Start(t) /\ R(t, "Start"))
+    \/ (LockE(t) /\ R(t, "LockE"))
+    \/ (LockL(t) /\ R(t, "LockL"))
+    \/ (Symbol(t) /\ R(t, "Symbol"))
+    \/ (UnlockL(t) /\ R(t, "UnlockL"))
+    \/ (UnlockE(t) /\ R(t, "UnlockE"))
+    \/ (LockT(t) /\ R(t, "LockT"))
+    \/ (Hit(t) /\ R(t, "Hit"))
+    \/ (Miss(t) /\ R(t, "Miss"))
+    \/ (InterrogateVersion(t) /\ R(t, "InterrogateVersion"))
+    \/ (InterrogateMethods(t) /\ R(t, "InterrogateMethods"))
+    \/ (Insert(t) /\ R(t, "Insert"))
+    \/ (UnlockT(t) /\ R(t, "UnlockT"))
+    \/ (CallEnd(t) /\ R(t, "CallEnd"))
+    \/ (OpDone(t) /\ R(t, "OpDone"))
+SStep(t) == LStep(t, Rec)
 SNext == \E t \in Threads : SStep(t)
 SSpec == SInit /\ [][SNext]_svars
 
